@@ -227,3 +227,157 @@ Proof.
       pose proof (wf_buf _ Hwx _ _ Hl) as (_ & _ & Hall). unfold all4 in Hall. rewrite T1, T2 in Hall.
       destruct (rx_open c), (rrx_dropped c); cbn [negb b2n andb] in *; try lia; discriminate.
 Qed.
+
+(** * The composed system *)
+Definition Ok (n : net) : Prop := OkS (na n) (nb n) (lab n) (lba n).
+Definition nfinished (n : net) : Prop := finished_ok (na n) /\ finished_ok (nb n).
+Definition flow_error (n : net) : Prop :=
+  exists err, (dead (na n) = Some err \/ dead (nb n) = Some err) /\ flow_class err = true.
+
+Lemma Ok_intro c acts : healthy (nreach c acts) -> nquiet (nreach c acts) -> Ok (nreach c acts).
+Proof.
+  intros [H1 H2] (Q1 & Q2 & Q3 & Q4). pose proof (NetInv_reach c acts (conj H1 H2)) as Hi. destruct (Extra_reach c acts) as [E1 E2 E3 E4].
+  constructor; auto.
+Qed.
+
+Lemma Ok_facts n : Ok n -> healthy n /\ NetInv n.
+Proof. intros [A1 A2 A3 _ _ _ _ _ _ _ _]. split; [split; assumption|exact A3]. Qed.
+
+Lemma not_alive_finished e : WF e -> dead e = None -> alive e = false -> finished_ok e.
+Proof.
+  intros Hw Hd Ha. rewrite (alive_iff _ Hd (wf_nopanic _ Hw)) in Ha. apply negb_false_iff in Ha. apply andb_true_iff in Ha as [G1 G2].
+  repeat split; assumption.
+Qed.
+
+(** a system action of A / a delivery to A, in a good state *)
+Lemma step_A n a A' : Ok n -> sys_act a = true -> step_opt (na n) a = Some A' ->
+  Ok (nstep n (Loc SA a)) /\ mu (nstep n (Loc SA a)) < mu n.
+Proof.
+  intros Ho Hs H. assert (Hr : is_recv a = false) by (destruct a; try discriminate; reflexivity).
+  cbn [nstep]. rewrite Hr. assert (step (na n) a = A') as -> by (unfold step; now rewrite H).
+  destruct (okS_local _ _ _ _ _ _ Ho Hs H) as [B1 B2]. unfold Ok, mu. cbn [na nb lab lba set RecordSet.set]. split; [exact B1|exact B2].
+Qed.
+Lemma step_B n a B' : Ok n -> sys_act a = true -> step_opt (nb n) a = Some B' ->
+  Ok (nstep n (Loc SB a)) /\ mu (nstep n (Loc SB a)) < mu n.
+Proof.
+  intros Ho Hs H. assert (Hr : is_recv a = false) by (destruct a; try discriminate; reflexivity).
+  cbn [nstep]. rewrite Hr. assert (step (nb n) a = B') as -> by (unfold step; now rewrite H).
+  destruct (okS_local _ _ _ _ _ _ (OkS_sym _ _ _ _ Ho) Hs H) as [B1 B2]. unfold Ok, mu. cbn [na nb lab lba set RecordSet.set].
+  split; [apply OkS_sym; exact B1|]. unfold muS in B2. lia.
+Qed.
+Lemma deliver_to_B n fr L0 : Ok n -> lab n = fr :: L0 -> alive (nb n) = true ->
+  flow_error (nstep n (Deliver SA)) \/ (Ok (nstep n (Deliver SA)) /\ mu (nstep n (Deliver SA)) < mu n).
+Proof.
+  intros Ho El Ha. destruct fr as [m pl]. destruct (en_Recv (nb n) m (paylen_of pl) Ha) as (b' & E).
+  destruct (Ok_facts _ Ho) as [Hh Hi]. destruct (NetInv_step n (Deliver SA) Hi) as [_ Herr].
+  cbn [nstep] in *. rewrite El, E in *. cbn [na nb lab lba set RecordSet.set] in *.
+  destruct (dead b') as [err|] eqn:Ed.
+  - left. exists err. cbn [na nb set RecordSet.set]. split; [right; exact Ed|]. apply Herr; auto.
+  - right. unfold Ok in Ho. rewrite El in Ho. destruct (okS_recv _ _ _ _ _ _ _ Ho E Ed) as [B1 B2].
+    unfold Ok, mu. cbn [na nb lab lba set RecordSet.set]. split; [exact B1|]. unfold muS in B2. rewrite El. exact B2.
+Qed.
+Lemma deliver_to_A n fr L0 : Ok n -> lba n = fr :: L0 -> alive (na n) = true ->
+  flow_error (nstep n (Deliver SB)) \/ (Ok (nstep n (Deliver SB)) /\ mu (nstep n (Deliver SB)) < mu n).
+Proof.
+  intros Ho El Ha. destruct fr as [m pl]. destruct (en_Recv (na n) m (paylen_of pl) Ha) as (a' & E).
+  destruct (Ok_facts _ Ho) as [Hh Hi]. destruct (NetInv_step n (Deliver SB) Hi) as [_ Herr].
+  cbn [nstep] in *. rewrite El, E in *. cbn [na nb lab lba set RecordSet.set] in *.
+  destruct (dead a') as [err|] eqn:Ed.
+  - left. exists err. cbn [na nb set RecordSet.set]. split; [left; exact Ed|]. apply Herr; auto.
+  - right. unfold Ok in Ho. apply OkS_sym in Ho. rewrite El in Ho. destruct (okS_recv _ _ _ _ _ _ _ Ho E Ed) as [B1 B2].
+    unfold Ok, mu. cbn [na nb lab lba set RecordSet.set]. split; [apply OkS_sym; exact B1|]. unfold muS in B2. rewrite El. cbn [map sum] in B2 |- *. lia.
+Qed.
+
+(** in a good state either both dispatchers have ended successfully, or some system action is
+    enabled -- and it ends in a quantity error or leads to a good state with a smaller measure *)
+Theorem progress n : Ok n ->
+  nfinished n \/ exists a, sys_nact a = true /\ (flow_error (nstep n a) \/ (Ok (nstep n a) /\ mu (nstep n a) < mu n)).
+Proof.
+  intros Ho. pose proof Ho as [A1 A2 A3 A4 A5 A6 A7 A8 A9 A10 A11]. pose proof A3 as (Hwa & Hwb & _).
+  assert (PA : alive (na n) = true ->
+           (exists a, sys_nact a = true /\ (flow_error (nstep n a) \/ (Ok (nstep n a) /\ mu (nstep n a) < mu n))) \/ stuck (na n) (lba n)).
+  { intros Ha. destruct (side_progress (na n) (lba n) Ha (q_li _ A8)) as [(a & A' & Hs & H)|[(fr & L0 & El)|Hst]]; [left|left|right; exact Hst].
+    - exists (Loc SA a). split; [exact Hs|right]. eapply step_A; eauto.
+    - exists (Deliver SB). split; [reflexivity|]. eapply deliver_to_A; eauto. }
+  assert (PB : alive (nb n) = true ->
+           (exists a, sys_nact a = true /\ (flow_error (nstep n a) \/ (Ok (nstep n a) /\ mu (nstep n a) < mu n))) \/ stuck (nb n) (lab n)).
+  { intros Hb. destruct (side_progress (nb n) (lab n) Hb (q_li _ A9)) as [(a & B' & Hs & H)|[(fr & L0 & El)|Hst]]; [left|left|right; exact Hst].
+    - exists (Loc SB a). split; [exact Hs|right]. eapply step_B; eauto.
+    - exists (Deliver SA). split; [reflexivity|]. eapply deliver_to_B; eauto. }
+  destruct (alive (na n)) eqn:Ea, (alive (nb n)) eqn:Eb.
+  - destruct (PA eq_refl) as [H|Sa]; [right; exact H|]. destruct (PB eq_refl) as [H|Sb]; [right; exact H|].
+    exfalso. apply (alive_contra _ _ _ _ Ho Sa); auto.
+  - destruct (PA eq_refl) as [H|Sa]; [right; exact H|]. exfalso. apply (alive_contra _ _ _ _ Ho Sa); [|exact Ea]. intros E. congruence.
+  - destruct (PB eq_refl) as [H|Sb]; [right; exact H|]. exfalso. apply (alive_contra _ _ _ _ (OkS_sym _ _ _ _ Ho) Sb); [|exact Eb]. intros E. congruence.
+  - left. split; apply not_alive_finished; auto.
+Qed.
+
+(** * Both dispatchers terminate *)
+Theorem terminates_from : forall k n, mu n < k -> Ok n ->
+  exists acts, forallb sys_nact acts = true /\ (nfinished (nrun acts n) \/ flow_error (nrun acts n)).
+Proof.
+  induction k as [|k IH] using N.peano_ind; intros n Hk Ho; [lia|].
+  destruct (progress n Ho) as [Hf|(a & Hs & [He|[Ho' Hm]])].
+  - exists []. split; [reflexivity|left; exact Hf].
+  - exists [a]. split; [cbn [forallb]; now rewrite Hs|right; exact He].
+  - destruct (IH (nstep n a)) as (acts & Ha & Hr); [lia|exact Ho'|]. exists (a :: acts). split; [cbn [forallb]; now rewrite Hs|exact Hr].
+Qed.
+
+Theorem both_terminate c acts :
+  let n := nreach c acts in
+  healthy n -> nquiet n ->
+  exists acts', forallb sys_nact acts' = true /\ (nfinished (nrun acts' n) \/ flow_error (nrun acts' n)).
+Proof. intros n Hh Hq. apply (terminates_from (N.succ (mu n))); [lia|]. now apply Ok_intro. Qed.
+
+(** every enabled system action from a good state decreases the measure (or is the first quantity error) *)
+Theorem system_action_decreases n a : Ok n -> sys_nact a = true ->
+  nstep n a = n \/ flow_error (nstep n a) \/ (Ok (nstep n a) /\ mu (nstep n a) < mu n).
+Proof.
+  intros Ho Hs. destruct n as [A B Lab Lba]. destruct a as [[|] a|[|]]; cbn [sys_nact] in Hs.
+  - destruct (step_opt A a) as [A'|] eqn:E.
+    + right. right. eapply (step_A (mk_net A B Lab Lba)); eauto.
+    + left. assert (Hr : is_recv a = false) by (destruct a; try discriminate; reflexivity).
+      cbn [nstep]. rewrite Hr. cbn [na nb lab lba set RecordSet.set]. unfold step. rewrite E. unfold new_frames. now rewrite skipn_all, app_nil_r.
+  - destruct (step_opt B a) as [B'|] eqn:E.
+    + right. right. eapply (step_B (mk_net A B Lab Lba)); eauto.
+    + left. assert (Hr : is_recv a = false) by (destruct a; try discriminate; reflexivity).
+      cbn [nstep]. rewrite Hr. cbn [na nb lab lba set RecordSet.set]. unfold step. rewrite E. unfold new_frames. now rewrite skipn_all, app_nil_r.
+  - destruct Lab as [|[m pl] L0]; [left; reflexivity|]. destruct (alive B) eqn:Ea.
+    + right. eapply (deliver_to_B (mk_net A B ((m, pl) :: L0) Lba)); eauto. reflexivity.
+    + left. cbn [nstep lab nb]. now rewrite (not_alive_absorbing _ _ Ea).
+  - destruct Lba as [|[m pl] L0]; [left; reflexivity|]. destruct (alive A) eqn:Ea.
+    + right. eapply (deliver_to_A (mk_net A B Lab ((m, pl) :: L0))); eauto. reflexivity.
+    + left. cbn [nstep lba na]. now rewrite (not_alive_absorbing _ _ Ea).
+Qed.
+
+(** when no system action is enabled both dispatchers have ended successfully *)
+Theorem stuck_is_finished n : Ok n -> (forall a, sys_nact a = true -> nstep n a = n) -> nfinished n.
+Proof.
+  intros Ho Hst. destruct (progress n Ho) as [Hf|(a & Hs & H)]; [exact Hf|]. exfalso. rewrite (Hst a Hs) in H.
+  destruct (Ok_facts _ Ho) as [[H1 H2] _]. destruct H as [(err & [E|E] & _)|[_ Hm]]; try congruence. lia.
+Qed.
+
+(** * A decidable form of "no user object left" (for concrete states) *)
+Lemma lookup_In {A} k (v : A) l : lookup k l = Some v -> In (k, v) l.
+Proof.
+  induction l as [|[k1 v1] l IH]; cbn [lookup]; [discriminate|]. destruct (k =? k1) eqn:E.
+  - intros [= ->]. apply N.eqb_eq in E. subst. now left.
+  - intros H. right. auto.
+Qed.
+Definition equietb (e : ep) : bool :=
+  negb (clients_alive e) && negb (listener_alive e) &&
+  forallb (fun x => negb (is_alive (h_tx (snd x))) && negb (is_alive (h_rx (snd x)))) (handles e) &&
+  forallb (fun x => match snd x with RDropped | RAnswered => true | _ => false end) (requests e) &&
+  (count is_acc (chq e) =? 0) && (count is_acc (cq e) =? 0).
+Definition nquietb (n : net) : bool :=
+  equietb (na n) && equietb (nb n) && (cnt m_ispo (lab n) =? 0) && (cnt m_ispo (lba n) =? 0).
+
+Lemma equietb_sound e : equietb e = true -> equiet e.
+Proof.
+  unfold equietb. intros H. bools. apply N.eqb_eq in H0, H1. rewrite forallb_forall in H2, H3. constructor; auto.
+  - intros p h Hl. specialize (H3 _ (lookup_In _ _ _ Hl)). cbn [snd] in H3. bools.
+    split; intros E; rewrite E in *; discriminate.
+  - intros r s Hl. specialize (H2 _ (lookup_In _ _ _ Hl)). cbn [snd] in H2. destruct s; try discriminate; auto.
+Qed.
+Lemma nquietb_sound n : nquietb n = true -> nquiet n.
+Proof. unfold nquietb, nquiet. intros H. bools. apply N.eqb_eq in H0, H1. auto using equietb_sound. Qed.
